@@ -122,8 +122,12 @@ M_C02(pre, a, obs, post) ==
   If(c.loaded, "AcceptedPublishNeedsLiveTopic")
   \cup If({d.s : d \in obs.data} = expect, "ExactlyTheAttachedReaders")
   \cup If(\A x \in Sessions : obs.ndata[x] <= 1, "OneCopyEach")
-  \cup If(\A d \in obs.data : d.content = a.c /\ d.from = Actor(a) /\ d.seq = obs.ackSeq, "CopyUnaltered")
-  \cup If(\A d \in obs.data : d.topic = t, "TopicNamedAsTheRecipientAddressesIt")
+  \cup If(\A d \in obs.data : d.content = a.c /\ d.seq = obs.ackSeq, "CopyUnaltered")
+  \* the true author, withheld from channel readers
+  \cup If(\A d \in obs.data : d.from = (IF AttChan(c, d.s) THEN "" ELSE Actor(a)), "TrueAuthorWithheldFromChannelReaders")
+  \* the name by which that recipient addresses the topic: the peer in p2p (abstracted to the topic), the chnXXX spelling for readers
+  \cup If(\A d \in obs.data : d.topic = t /\ d.aschan = AttChan(c, d.s), "TopicNamedAsTheRecipientAddressesIt")
+  \cup If(\A x \in obs.pushChan : IF c.loaded /\ c.ischan THEN x.channel = t /\ x.ischn ELSE x.channel = "", "ChannelReadersReachedThroughBroadcastAddressOnly")
   \cup If(obs.push = {pushExpect} \/ (pushExpect = {} /\ obs.push \subseteq {{}}), "PushToReadersWithPresence")
 
 \* ------------------------------------------------------------------ C07: who may change permissions
@@ -156,6 +160,11 @@ M_C07(pre, a, obs, post) ==
       : uu \in Users }
     \cup If(Live(post, t) => Cardinality({u \in Users : post.subs[t][u].st = "live"}) <= MaxSubs, "SubscriberLimit")
     \cup If(post.cache[t].loaded => \A x \in AttOf(post.cache[t]) : x.chan \/ "J" \in M(post.cache[t].per[x.u].given), "NoAttachWithoutJoinGrant")
+    \* channel readers: the grant is fixed (JRP), the request stays within it and keeps J and R
+    \cup If(\A u \in Users : post.csubs[t][u].st = "live" =>
+                M(post.csubs[t][u].given) = CChnReader /\ M(post.csubs[t][u].want) \subseteq CChnReader /\ {"J", "R"} \subseteq M(post.csubs[t][u].want),
+            "ChannelReaderModesFixed")
+    \cup If(\A u \in Users : post.csubs[t][u] # pre.csubs[t][u] => u = actor, "ChannelReaderRowChangedOnlyBySelf")
     : tt \in GrpTopics }
   \cup UNION {
     LET t == tt IN
@@ -182,7 +191,9 @@ Incons(S, t) ==
     If(c.last = S.topics[t].seq, "LastIdStored")
     \cup If(c.del = S.topics[t].delId, "DelIdStored")
     \cup If(c.auth = S.topics[t].auth /\ c.anon = S.topics[t].anon, "DefaultAccessStored")
-    \cup If(\A u \in Users : (c.per[u].in /\ ~c.per[u].deleted) <=> S.subs[t][u].st = "live", "SubscribersStored")
+    \* full subscribers are the live grpXXX rows; a cached channel reader has a live chnXXX row
+    \cup If(\A u \in Users : (c.per[u].in /\ ~c.per[u].deleted /\ ~c.per[u].ischan) <=> S.subs[t][u].st = "live", "SubscribersStored")
+    \cup If(\A u \in Users : c.per[u].in /\ c.per[u].ischan => S.csubs[t][u].st = "live", "ChannelReadersStored")
     \cup If(\A u \in Users : c.per[u].in /\ S.subs[t][u].st = "live" => c.per[u].want = S.subs[t][u].want /\ c.per[u].given = S.subs[t][u].given, "PermissionsStored")
     \cup If(\A u \in Users : c.per[u].in /\ S.subs[t][u].st = "live" /\ "R" \in Eff(c.per[u]) =>
                c.per[u].read = S.subs[t][u].read /\ c.per[u].recv = S.subs[t][u].recv, "MarksStored")
@@ -225,6 +236,25 @@ M_C09(pre, a, obs, post) ==
       : uu \in Users }
     : tt \in Topics }
   \cup (IF IsReq(a) /\ a.a = "Note" THEN If(obs.nack = 0, "NotesAreNeverAnswered") ELSE {})
+  \* channel readers' marks (stored under the chnXXX row)
+  \cup UNION { UNION {
+       LET r0 == pre.csubs[t][u]  r1 == post.csubs[t][u] IN
+       If(r0.st = "live" /\ r1.st = "live" => r1.read >= r0.read /\ r1.recv >= r0.recv, "ChannelReaderMarksNeverDecrease")
+       \cup If(r1.st = "live" /\ Live(post, t) /\ r1 # r0 => 0 <= r1.read /\ r1.recv <= post.topics[t].seq /\ r1.read <= post.topics[t].seq, "ChannelReaderMarksWithinBounds")
+       : u \in Users } : t \in GrpTopics }
+  \* relayed notifications: only to attached sessions of users with R, never the originating session, never channel readers,
+  \* typing notes never to any session of the typist; they name the true sender and the recipient's own name for the topic
+  \cup (IF IsReq(a) /\ a.a = "Note" /\ pre.cache[a.t].loaded THEN
+          LET t == a.t  c == pre.cache[t]  u == Actor(a) IN
+          UNION { LET f == ff
+                      x == {y \in AttOf(c) : y.s = f.s} IN
+                  IF f.topic # t THEN {}       \* notices on 'me' are presence's business (C10)
+                  ELSE If(x # {} /\ \A y \in x : ~y.chan /\ c.per[y.u].in /\ "R" \in Eff(c.per[y.u]), "InfoOnlyToAttachedReaders")
+                       \cup If(f.s # a.s, "InfoNeverToOriginatingSession")
+                       \cup If(f.what \in {"kp", "kpa", "kpv"} => \A y \in x : y.u # u, "TypingNeverToTheTypist")
+                       \cup If(f.from = u, "InfoNamesTrueSender")
+                  : ff \in obs.info }
+        ELSE {})
 
 \* ------------------------------------------------------------------ C04: history and deletion are exact
 RowIds(r) == r.low..(r.hi - 1)
@@ -239,7 +269,7 @@ Newest(X, k) == IF k = 0 \/ X = {} THEN {} ELSE LET m == CHOOSE x \in X : \A y \
 M_C04(pre, a, obs, post) ==
   IF ~IsReq(a) THEN {} ELSE
   LET t == a.t  u == Actor(a)
-      row == pre.subs[t][u]
+      row == IF "chan" \in DOMAIN a /\ a.chan THEN pre.csubs[t][u] ELSE pre.subs[t][u]
       mode == IF row.st = "live" THEN Eff(row) ELSE {}
       attached == t \in M(pre.sess[a.s].subs)
       existing == Seqs(pre, t)
@@ -270,7 +300,8 @@ M_C04(pre, a, obs, post) ==
          expect == IF attached /\ "R" \in mode THEN Newest(inRange, limit) ELSE {}
          got == {d \in obs.data : d.s = a.s}
      IN If({d.seq : d \in got} = expect, "HistoryIsExactlyTheVisibleMessagesInRange")
-        \cup If(\A d \in got : d.seq \in existing => d.content = MsgBySeq(pre, t, d.seq).content /\ d.from = MsgBySeq(pre, t, d.seq).from, "HistoryShowsWhatWasPublished")
+        \cup If(\A d \in got : d.seq \in existing => d.content = MsgBySeq(pre, t, d.seq).content
+                                   /\ d.from = (IF a.chan THEN "" ELSE MsgBySeq(pre, t, d.seq).from), "HistoryShowsWhatWasPublished")
         \cup If(Cardinality(got) <= limit /\ obs.ndata[a.s] = Cardinality(got), "HistoryRespectsLimitNoDuplicates")
         \cup If(\A d \in obs.data : d.s = a.s, "HistoryGoesToRequesterOnly")
   ELSE IF a.a = "Get" /\ a.what = "del" THEN
